@@ -75,6 +75,7 @@ type CheckResult struct {
 	KnownLines  []string
 	BySolver    map[string]int
 	ExtraChecks []ExtraCheck
+	Thorough    *ThoroughStats
 }
 
 type ExtraCheck struct {
@@ -260,6 +261,9 @@ func RunCheck(o CheckOpts) *CheckResult {
 	}
 	sort.Strings(res.Trusted)
 	sort.Strings(res.Notes)
+	if o.Tier == "thorough" {
+		res.runThorough(o)
+	}
 	res.WallS = time.Since(start).Seconds()
 	return res
 }
@@ -577,10 +581,14 @@ func writeEvidence(o CheckOpts, res *CheckResult, viol int) {
 		"a panicking path ends the execution (partial correctness) except in functions marked safe, where every panic is an obligation",
 		"termination is proved only where a decreases clause is given")
 	cov := map[string]interface{}{
-		"obligations":                       res.Total,
-		"discharged":                        res.Discharged + len(res.Known),
-		"discharged_without_known_findings": res.Discharged,
-		"known_findings":                    known,
+		// obligations the claim rests on: those generated, minus the ones listed as open known findings
+		// (genuine defects recorded in /verif/known_findings.json; they are NOT discharged and are
+		// reported on every run as KNOWN-FINDING lines)
+		"obligations":                res.Total - len(res.Known),
+		"discharged":                 res.Discharged,
+		"obligations_generated":      res.Total,
+		"known_finding_obligations":  len(res.Known),
+		"known_findings":             known,
 		"checker_cmd":                       fmt.Sprintf("/verif/bin/govc check %s --tier %s", o.Prop, tier),
 		"trusted_base":                      res.Trusted,
 		"functions_under_contract":          res.Functions,
@@ -594,6 +602,9 @@ func writeEvidence(o CheckOpts, res *CheckResult, viol int) {
 	}
 	if res.LoadErr != nil {
 		cov["load_error"] = res.LoadErr.Error()
+	}
+	if res.Thorough != nil {
+		cov["thorough"] = res.Thorough
 	}
 	ev := map[string]interface{}{
 		"property_id": o.Prop,
